@@ -1393,6 +1393,13 @@ func (w *envelopingWriter) writeBytes(data []byte) (int, error) {
 
 func (w *envelopingWriter) handleEnvelopeWritten() error {
 	w.writingEnvelope = false
+	if w.rw.op.serverEnveloper == nil {
+		// The server protocol has no envelopes: the one for the client was synthesized
+		// from the content-length, so the handler wrote more than it declared.
+		err := fmt.Errorf("handler wrote more than the declared content-length of %d bytes", w.rw.contentLen)
+		w.rw.reportError(err)
+		return err
+	}
 	env, err := w.rw.op.serverEnveloper.decodeEnvelope(w.env)
 	if err != nil {
 		err = malformedRequestError(err)
@@ -1523,7 +1530,7 @@ func (w *envelopingWriter) maybeInit() {
 		return
 	}
 	w.current = w.w
-	w.remainingBytes = envelopeLen
+	w.remainingBytes = w.rw.contentLen
 }
 
 func (w *envelopingWriter) handleTrailer() error {
